@@ -185,7 +185,7 @@ CHECKS = {
              'over the statement printer token stream yields exactly the specified layout emitModule - one line per clause, suites inline '
              '(single ; between simple statements) or as a block one level deeper, no empty line or trailing separator - and the printed '
              'characters are those layout tokens; hypotheses okL / textOK are decidable and evaluated on every module of the correspondence; '
-             'the layout specification is validated against CPython tokenize (depth and ; count of every logical line). Tie: the Lean printer model '
+             'the layout specification is validated against CPython tokenize (depth and ; count of every logical line); about the specification itself: no two adjacent layout tokens (layout_tidy), a deeper line only one level deeper and only after a colon (layout_indentation), every line break and ; at bracket depth 0 because all expression / header / statement token runs are bracket-balanced (layout_brackets) - the last two without side condition. Tie: the Lean printer model '
              '(tokens, expressions, statements, layout) is compared byte for byte with ModulePrinter on an exhaustive slot x child-class '
              'enumeration, a pinned corpus and random trees; the grammar spec Gram is validated against ast.parse under perturbed tables; '
              'strict round trip on the real unparse / minify(all off) is the failing-input search.',
